@@ -57,7 +57,10 @@ CLAIMED = {
              "of the values built from any UUID / non-empty language list - all for all strings/values, by induction.  Category "
              "tables, validator arms, numeric limits and the byte-vs-character measure are regenerated from category.rs.  "
              "Correspondence: ~27k (category, string) and (column, value) pairs, bounded-exhaustive over adversarial alphabets; "
-             "oracle = independent regex grammar.  The insert/update gate itself is decided with the package model (C03/C04).",
+             "oracle = independent regex grammar.  The gate itself (props/C07_gate.v): a successful INSERT/UPDATE implies every value "
+             "valid and the arity right; an invalid value, wrong arity or unknown column is refused (never a panic); and on every "
+             "state satisfying the package invariant INSERT is accepted IF AND ONLY IF every row is acceptable and the keys are "
+             "new - it fails only for the documented structural reasons (within the capacity limits).",
         note="Trusted: Coq kernel, translator, extraction, harness; str::parse and Uuid::parse_str modelled by contract "
              "(read in the dependency source, validated by the correspondence).",
         technique="Coq proof (induction on strings, reflection of boolean validators into declarative grammars) + correspondence",
